@@ -259,6 +259,9 @@ func (t *tr) leanType(n ast.Node, ty types.Type) string {
 		case types.String:
 			return "Bytes"
 		}
+		if u.Kind() == types.Invalid {
+			t.fail(n, "the type of this expression is declared outside the module (or does not type-check): not translated")
+		}
 		t.fail(n, "unsupported basic type %s", ty)
 	case *types.Slice:
 		e := t.leanType(n, u.Elem())
